@@ -56,6 +56,26 @@ CHECKS = {
    note="Obligations are structural/algebraic identities of the current source; holding implies the invariance clauses "
         "(whole-box-vector displacement of non-first parents, rigid translation) given C02. Not decided: floating-point "
         "rounding, creation of the CG topology (cgmoleculedef/cgengine tables, R1.6 of the design), csg_map's format pairs (C08)."),
+ "C07": dict(cat="proof", ref="DESIGN.md section 4 C07",
+   technique="symbolic folding of value and derivative code from the AST + formal differentiation (chain rule, norm atoms with N^2=v.v) + exact polynomial identity decision (coefficient-wise at random rational points, and full symbolic expansion where it terminates)",
+   text="For bond, angle and dihedral the formal gradient of the folded EvaluateVar equals the folded Grad for every bead and "
+        "component and the gradients sum to zero; for LJ12-6, LJ+Gaussian and the cubic B-spline potential dF/dlam_i = DF(i) and "
+        "dDF(i)/dlam_j = D2F(i,j) for every parameter (pair), with the same domain guard; for cubic, Akima and linear splines "
+        "d/dr Calculate = CalculateDerivative. These are identities between formulas of the current source, hence hold for every "
+        "configuration/parameter vector away from the stated singular geometries.",
+   note="Obligations are discharged by exact arithmetic: bond/angle/potentials/splines by full symbolic expansion; the dihedral (quick "
+        "tier) by coefficient-wise identity at 4 random rational geometries (Schwartz-Zippel, error probability < 1e-10), in the thorough "
+        "tier additionally by symbolic expansion under a time budget. Trusted: clang front end, sympy polynomial arithmetic. Not "
+        "decided: singular geometries, getInterval at knots, floating-point error of the compiled code."),
+ "C12": dict(cat="proof", ref="DESIGN.md section 4 C12",
+   technique="symbolic folding of spline coefficient code + exact polynomial identities (interpolation, C1 rows, curvature, boundary rows, Akima piece conditions), AST/CFG checks of grid pinning, smoothing stencil, resample plumbing",
+   text="Decides the closed-form clauses for every grid and data set: linear pieces pass through both knots; cubic basis "
+        "functions interpolate, f2 is the curvature, the one-sided slope coefficients are the derivatives from the left/right "
+        "interval and the rows built in Interpolate/AddBCToFitMatrix are exactly the C1 conditions (so the first derivative is "
+        "continuous on any non-uniform grid); natural/periodic boundary rows; Akima pieces match values and slopes; grids end at max; "
+        "smoothing keeps end points and straight lines; csg_resample derives value and derivative from one spline on the same grid.",
+   note="Not decided: least-squares optimality of Fit, numerical conditioning of the QR solves, behaviour on data. Trusted: clang "
+        "front end, sympy polynomial arithmetic."),
 }
 NA = {
 }
